@@ -44,6 +44,7 @@ class Doc:
         self.features = set()
         self.dead_sub = None
         self.cont_order = "as_is"
+        self.alt_root = None
         self.root_abstract = True
 
 
@@ -155,7 +156,7 @@ def draw_type(ch, doc, idx, int_refs, force_ref=False):
     container that may serve as length / context references. Returns (type name, kind dict)."""
     name = f"T{idx}"
     choices = [(5, "uint"), (2, "sint"), (2, "float"), (2, "enum"), (1, "bool"), (2, "binfixed"), (2, "strfixed"),
-               (1, "abstime"), (1, "reltime")]
+               (1, "abstime"), (1, "reltime"), (1, "enumf"), (1, "enums"), (1, "intf"), (1, "floati"), (1, "boolf")]
     if int_refs:
         choices += [(3, "bindyn"), (2, "strdyn"), (2, "strlookup")]
     kind = ch.weighted(choices, "tkind")
@@ -199,6 +200,32 @@ def draw_type(ch, doc, idx, int_refs, force_ref=False):
                                                                            E("EnumerationList", {}, labels)])
         k.update(bits=bits)
         doc.features.add("enum")
+    elif kind == "enumf":
+        # enumeration over a float-encoded raw value (keys are parsed with float())
+        labels = [E("Enumeration", {"value": v, "label": f"F{j}_{idx}"}, []) for j, v in enumerate(("0.0", "1.0", "2.5"))]
+        node = E("EnumeratedParameterType", {"name": name}, unit_nodes + [
+            E("FloatDataEncoding", {"sizeInBits": "32", "encoding": "IEEE754"}, []), E("EnumerationList", {}, labels)])
+        k.update(kind="enumf", bits=32)
+        doc.features.add("enum_float")
+    elif kind == "enums":
+        # enumeration over a string-encoded raw value (keys are the encoded bytes)
+        labels = [E("Enumeration", {"value": v, "label": f"S{j}_{idx}"}, []) for j, v in enumerate(("A", "B", "Z"))]
+        node = E("EnumeratedParameterType", {"name": name}, unit_nodes + [
+            E("StringDataEncoding", {"encoding": "US-ASCII"}, [E("SizeInBits", {}, [E("Fixed", {}, [E("FixedValue", text="8")])])]),
+            E("EnumerationList", {}, labels)])
+        k.update(kind="enums", bits=8)
+        doc.features.add("enum_string")
+    elif kind == "intf":
+        # an Integer parameter type carried by a float encoding, and (floati) a Float type carried by an integer encoding
+        node = E("IntegerParameterType", {"name": name}, unit_nodes + [E("FloatDataEncoding", {"sizeInBits": "32"}, [])])
+        k.update(kind="float", bits=32)
+    elif kind == "floati":
+        bits = ch.pick((16, 8, 12), "fibits")
+        node = E("FloatParameterType", {"name": name}, unit_nodes + [_int_encoding(bits, ch.pick(("unsigned", "twosComplement"), "fienc"))])
+        k.update(kind="uint", bits=bits, calibrated=True)
+    elif kind == "boolf":
+        node = E("BooleanParameterType", {"name": name}, unit_nodes + [E("FloatDataEncoding", {"sizeInBits": "32"}, [])])
+        k.update(kind="float", bits=32)
     elif kind == "bool":
         bits = ch.pick((1, 8), "bbits")
         node = E("BooleanParameterType", {"name": name}, unit_nodes + [_int_encoding(bits, "unsigned")])
@@ -272,9 +299,12 @@ def draw_type(ch, doc, idx, int_refs, force_ref=False):
             children = [E("Encoding", ea, [E("FloatDataEncoding", {"sizeInBits": str(bits)}, [])])]
         else:
             children = [E("Encoding", ea, [_int_encoding(bits, "unsigned")])]
-        if ch.chance(1, 2, "tref"):
+        tref = ch.pick((None, "epoch", "offset"), "tref")
+        if tref == "epoch":
             children.append(E("ReferenceTime", {}, [E("Epoch", text=ch.pick(("TAI", "2009-10-10T12:00:00-05:00", "GPS"),
                                                                               "epoch"))]))
+        elif tref == "offset":
+            children.append(E("ReferenceTime", {}, [E("OffsetFrom", {"parameterRef": "SRC_SEQ_CTR"}, [])]))
         node = E(tag, {"name": name}, children)
         k.update(bits=bits, kind="uint", timekind=kind)
         doc.features.add("time")
@@ -379,6 +409,17 @@ def draw_doc(ch, tag="D"):
                                        short=None, long=None))
         doc.ambiguous_apid = 77
         doc.features.add("ambiguous")
+    doc.alt_root = None
+    if ch.chance(1, 2, "alt_root"):
+        # a second header-bearing container that a caller may name as root_container_name: header + one byte, no inheritors
+        doc.types.append(("ALT_P_Type", E("IntegerParameterType", {"name": "ALT_P_Type"}, [_int_encoding(8, "unsigned")]),
+                          {"kind": "uint", "bits": 8}))
+        doc.kinds["ALT_P_Type"] = {"kind": "uint", "bits": 8}
+        doc.params.append(("ALT_P", "ALT_P_Type", None, None))
+        doc.ptype["ALT_P"] = "ALT_P_Type"
+        doc.containers.append(dict(name="AltRoot" + deco, abstract=False, base=None, criteria=None,
+                                   entries=[("p", n) for n, _ in HDR_FIELDS] + [("p", "ALT_P")], short=None, long=None))
+        doc.alt_root = "AltRoot" + deco
     doc.unknown_apids = [300, 2046]
     # order of the SequenceContainer elements inside ContainerSet: base and nested containers may be defined after the
     # containers that refer to them (forward references)
@@ -416,7 +457,8 @@ def sibling(doc, ch):
     for ti, (name, node, k) in enumerate(sib.types):
         if name.endswith("_Type"):            # header / pad / sub types keep their size (packets are built around them)
             continue
-        if node[0] == "IntegerParameterType" and name not in ref_types and k.get("bits", 99) <= 32:
+        if node[0] == "IntegerParameterType" and name not in ref_types and k.get("bits", 99) <= 32 and k.get("kind") in ("uint", "sint") \
+                and any(c[0] == "IntegerDataEncoding" for c in node[2]):
             candidates.append(("resize", ti))
         if node[0] == "EnumeratedParameterType":
             candidates.append(("relabel", ti))
@@ -662,6 +704,10 @@ def encode_packet(doc, chain, apid, fixed, sub, count=0, version=0, flags=3):
             v = rnd(k["bits"])
             bits.put(v, k["bits"])
             raw[pname] = v
+        elif kind == "enumf":
+            bits.put(int.from_bytes(struct.pack(">f", (0.0, 1.0, 2.5)[rnd(8) % 3]), "big"), 32)
+        elif kind == "enums":
+            bits.put(b"ABZ"[rnd(8) % 3], 8)
         elif kind == "float":
             if k["bits"] == 16:
                 v = rnd(16)
